@@ -74,6 +74,18 @@ def main(tier):
                  u=rng.choice(["0", "0.1", "1.0"]), vstyle=rng.choice([0, 2, 3]), timeout=240)
         if i % 6 == 5:
             j["lwork"] = 8000000
+        if i % 6 == 4:      # symmetric mode: bound and slots computed from A'+A, valid when the pivots stay on the diagonal
+            n = rng.randint(4, 40 if quick else 100)
+            for k in ("par", "lowfill", "kl", "ku", "last"):
+                j.pop(k, None)
+            j.update(gen="random", n=n, dens=rng.choice([40, 80, 150, 300]), fulldiag=1, vstyle=1, order=2, u="0", sym=1, refact=0)
+        if i % 6 == 3:      # symmetric mode on unsymmetric block patterns (column counts of A'+A larger than the rows of A in a relaxed supernode)
+            for k in ("par", "lowfill", "kl", "ku", "last", "dens", "fulldiag"):
+                j.pop(k, None)
+            rl = rng.choice([2, 3, 4])
+            n, pat = pipe.uptri_pattern(rng, 24 if quick else 50, rl)
+            j.update(gen="pattern", n=n, pat=pat, vstyle=1, order=-1, u="0", sym=1, refact=0, ps=rng.choice([1, 2, 3]), relax=rl,
+                     maxsuper=rng.choice([4, 8]))
         jobs.append(j)
     precs = ("d", "z") if quick else ("d", "s", "z", "c")
     build.ensure("asan")
